@@ -75,6 +75,7 @@ func runC06(p *Prog, r *Report) {
 	c.ruleR6()
 	c.ruleR7()
 	c.ruleR8()
+	c.ruleR9()
 }
 
 func (c *c06ctx) anchors() bool {
@@ -762,7 +763,24 @@ func (c *c06ctx) guardLoops(fn *ssa.Function) map[string]*RangeLoop {
 					return !(isC && cst.Value == nil)
 				})
 				cont := reachFromBlock(iff.Block().Succs[0], func(x ssa.Instruction) bool { return isReturn(x) }, func(x ssa.Instruction) bool { return x.Block() == l.Header })
-				if len(hits) > 0 && len(cont) == 0 {
+				// universal: no iteration gets round to the next one without having asked this
+				// question, and the loop is not left early (break) with channels still unchecked
+				skips := reachFromBlock(l.Body, func(x ssa.Instruction) bool { return x == ssa.Instruction(call) || isReturn(x) }, func(x ssa.Instruction) bool { return x.Block() == l.Header })
+				early := false
+				for _, b := range fn.Blocks {
+					if b == l.Header || !l.Contains(b) {
+						continue
+					}
+					for _, sc := range b.Succs {
+						if !l.Contains(sc) {
+							last := sc.Instrs[len(sc.Instrs)-1]
+							if _, isRet := last.(*ssa.Return); !isRet {
+								early = true
+							}
+						}
+					}
+				}
+				if len(hits) > 0 && len(cont) == 0 && len(skips) == 0 && !early {
 					guarded[h] = l
 				}
 			}
@@ -1135,4 +1153,174 @@ func (c *c06ctx) ruleR8() {
 	if n == 0 {
 		r.Bad("C06.R8", "activity predicate", "-", "no predicate of the writing state reads the Active flag")
 	}
+}
+
+// ---- R9: each output format is handled on its own -------------------------------------------
+
+// ruleR9: installing the writers of one channel, and flushing them, treats the formats
+// independently: whether the LJH3 writer of a channel is installed (flushed) may depend on the
+// LJH3 request flag / the presence of the LJH3 writer, never on a test about another format
+// (its request flag, its presence, or the projectors that only OFF needs).  A `continue` or a
+// `switch` that makes one format's step skip the others' is reported.  Control dependence is
+// computed on the flow graph (a block depends on a branch outcome when it is always reached
+// from that outcome and can be avoided from the other), within one loop iteration.
+func (c *c06ctx) ruleR9() {
+	p, r := c.p, c.r
+	about := func(cond ssa.Value) map[string]bool {
+		out := map[string]bool{}
+		d := c05Describe(cond, nil, 0)
+		if call, ok := cond.(*ssa.Call); ok && call.Call.StaticCallee() != nil {
+			if h := c.hasPred[call.Call.StaticCallee()]; h != "" {
+				out[h] = true
+			}
+			if strings.Contains(call.Call.StaticCallee().Name(), "HasProjectors") {
+				out["OFF"] = true
+			}
+		}
+		for _, h := range c.handles {
+			if strings.Contains(d, "Write"+h) || strings.Contains(d, "Has"+h+"(") || strings.HasSuffix(d, "."+h) || strings.Contains(d, "."+h+" ") || strings.Contains(d, "."+h+"=") || strings.Contains(d, "."+h+"!") {
+				out[h] = true
+			}
+		}
+		if strings.Contains(d, "HasProjectors") {
+			out["OFF"] = true
+		}
+		return out
+	}
+	for _, fn := range p.LibFuncs() {
+		if fnPkg(fn) != p.Root.Pkg {
+			continue
+		}
+		type op struct {
+			in ssa.Instruction
+			h  string
+		}
+		var ops []op
+		isPub := fn.Signature.Recv() != nil && typeName(fn.Signature.Recv().Type()) == c.pub.Obj().Name()
+		Instrs(fn, func(in ssa.Instruction) {
+			cc := CallOf(in)
+			if cc == nil || cc.StaticCallee() == nil || len(cc.Args) == 0 {
+				return
+			}
+			if h := c.installers[cc.StaticCallee()]; h != "" && !isPub {
+				ops = append(ops, op{in, h})
+				return
+			}
+			if isPub && cc.StaticCallee().Name() == "Flush" {
+				if _, f, _, ok := FieldOf(cc.Args[0]); ok {
+					for _, h := range c.handles {
+						if h == f {
+							ops = append(ops, op{in, h})
+						}
+					}
+				}
+			}
+		})
+		kinds := map[string]bool{}
+		for _, o := range ops {
+			kinds[o.h] = true
+		}
+		if len(kinds) < 2 {
+			continue
+		}
+		r.Fn(FuncName(fn))
+		for _, o := range ops {
+			bad := ""
+			for _, cd := range controlDependencesClosure(o.in.Block()) {
+				ab := about(cd.If.Cond)
+				if len(ab) == 0 || ab[o.h] {
+					continue
+				}
+				var hs []string
+				for h := range ab {
+					hs = append(hs, h)
+				}
+				sort.Strings(hs)
+				bad = fmt.Sprintf("the test of %s at %s (outcome %v)", strings.Join(hs, "/"), p.InstrPos(cd.If), cd.Branch == 0)
+			}
+			key := fmt.Sprintf("%s of %s in %s depends only on %s's own conditions", CallOf(o.in).StaticCallee().Name(), o.h, FuncName(fn), o.h)
+			r.Check(bad == "", "C06.R9", key, p.InstrPos(o.in), "not control dependent on a test about another output format",
+				"this step for "+o.h+" is skipped or taken depending on "+bad+": a channel can end up without the "+o.h+" writer (or without its flush) although the reported state says "+o.h+" is active")
+		}
+	}
+}
+
+// controlDependences: the branch outcomes block x is control dependent on, within one loop
+// iteration: x is always reached from successor k of the branch and can be avoided from the other
+// (reaching a return, or the branch again, without passing x).
+func controlDependences(x *ssa.BasicBlock) []ctrl {
+	var out []ctrl
+	fn := x.Parent()
+	avoidable := func(from, branch *ssa.BasicBlock) bool {
+		seen := map[*ssa.BasicBlock]bool{}
+		var walk func(b *ssa.BasicBlock) bool
+		walk = func(b *ssa.BasicBlock) bool {
+			if b == x {
+				return false
+			}
+			if seen[b] {
+				return false
+			}
+			seen[b] = true
+			if len(b.Succs) == 0 {
+				// left the function; an abort (error return, panic) stops every format alike and
+				// is not a way of skipping one of them
+				switch t := b.Instrs[len(b.Instrs)-1].(type) {
+				case *ssa.Panic:
+					return false
+				case *ssa.Return:
+					if n := len(t.Results); n > 0 && isErrorType(t.Results[n-1].Type()) && definitelyNonNilError(t.Results[n-1]) {
+						return false
+					}
+				}
+				return true
+			}
+			for _, s := range b.Succs {
+				if walk(s) {
+					return true
+				}
+			}
+			return false
+		}
+		return walk(from)
+	}
+	for _, a := range fn.Blocks {
+		iff, ok := a.Instrs[len(a.Instrs)-1].(*ssa.If)
+		if !ok || a == x || len(a.Succs) != 2 || a.Succs[0] == a.Succs[1] {
+			continue
+		}
+		if !BlockReaches(a, x) {
+			continue
+		}
+		av0, av1 := avoidable(a.Succs[0], a), avoidable(a.Succs[1], a)
+		r0 := a.Succs[0] == x || BlockReaches(a.Succs[0], x)
+		r1 := a.Succs[1] == x || BlockReaches(a.Succs[1], x)
+		if r0 && !av0 && av1 {
+			out = append(out, ctrl{iff, 0})
+		}
+		if r1 && !av1 && av0 {
+			out = append(out, ctrl{iff, 1})
+		}
+	}
+	return out
+}
+
+// controlDependencesClosure: direct control dependences of x and, transitively, of the blocks
+// that hold the branches it depends on.
+func controlDependencesClosure(x *ssa.BasicBlock) []ctrl {
+	var out []ctrl
+	seen := map[*ssa.BasicBlock]bool{}
+	var visit func(b *ssa.BasicBlock)
+	visit = func(b *ssa.BasicBlock) {
+		if seen[b] {
+			return
+		}
+		seen[b] = true
+		for _, cd := range controlDependences(b) {
+			out = append(out, cd)
+			visit(cd.If.Block())
+		}
+	}
+	visit(x)
+	return out
 }
